@@ -28,6 +28,8 @@ import (
 	"time"
 
 	"github.com/tendermint/tendermint/abci/example/counter"
+	"github.com/tendermint/tendermint/crypto"
+	"github.com/tendermint/tendermint/crypto/ed25519"
 	vg "github.com/tendermint/tendermint/internal/verifgen"
 	"github.com/tendermint/tendermint/libs/log"
 	"github.com/tendermint/tendermint/p2p"
@@ -833,3 +835,310 @@ func TestVerifC17StateMachine(t *testing.T) {
 		t.Fatal(err)
 	}
 }
+
+// ---------------------------------------------------------------- F85: validator sets off the wire
+
+// c17F85 gates the cases of finding F85 (types.ValidatorSetFromProto panics on a validator set whose
+// powers add up to more than MaxTotalVotingPower): on the unrepaired code they are VIOLATIONS
+// (the state machine halts), so they run only when VERIF_C17_F85=1.
+// THE ONE PLACE TO FLIP once fixes/F85 is applied: make this `!= "0"` (default on).
+func c17F85() bool { return os.Getenv("VERIF_C17_F85") == "1" }
+
+type c17Powers struct {
+	name   string
+	powers []int64
+}
+
+// validator sets by their voting powers: around and above the bound, int64 extremes, negatives
+func c17GenPowers(r *vg.Rand) c17Powers {
+	M := types.MaxTotalVotingPower
+	split := func(total int64, n int) []int64 {
+		out := make([]int64, n)
+		rest := total
+		for i := 0; i < n-1; i++ {
+			out[i] = r.Int63n(rest/int64(n-i)*2 + 1)
+			if out[i] > rest {
+				out[i] = rest
+			}
+			rest -= out[i]
+		}
+		out[n-1] = rest
+		return out
+	}
+	n := 2 + r.Intn(3)
+	switch r.Intn(12) {
+	case 0, 1, 2:
+		return c17Powers{fmt.Sprintf("max+1-split-over-%d", n), split(M+1, n)}
+	case 3:
+		return c17Powers{fmt.Sprintf("max-split-over-%d", n), split(M, n)}
+	case 4:
+		return c17Powers{"max-and-1", []int64{M, 1}}
+	case 5:
+		ps := []int64{math.MaxInt64}
+		for i := r.Intn(3); i > 0; i-- {
+			ps = append(ps, r.Int63n(1000))
+		}
+		return c17Powers{"one-maxint64", ps}
+	case 6:
+		return c17Powers{"maxint64-twice", []int64{math.MaxInt64, math.MaxInt64}}
+	case 7:
+		return c17Powers{"negative", []int64{-1 - r.Int63n(1000), 1 + r.Int63n(1000)}}
+	case 8:
+		return c17Powers{"maxint64-then-negative", []int64{math.MaxInt64, math.MinInt64, 5}}
+	case 9:
+		return c17Powers{"negative-then-over", []int64{-10, M, 11}}
+	case 10:
+		return c17Powers{fmt.Sprintf("max+%d-split-over-%d", 2+r.Intn(1000), n), split(M+2+r.Int63n(1<<40), n)}
+	}
+	ps := make([]int64, n)
+	for i := range ps {
+		ps[i] = r.Int63n(1 << 40)
+	}
+	return c17Powers{"well-formed", ps}
+}
+
+func c17ValsOf(powers []int64, seed byte) []*types.Validator {
+	out := make([]*types.Validator, len(powers))
+	for i, p := range powers {
+		sk := make([]byte, 32)
+		for j := range sk {
+			sk[j] = seed + byte(7*i+j)
+		}
+		out[i] = types.NewValidator(ed25519FromSeed(sk), p)
+	}
+	return out
+}
+
+// light-client-attack evidence whose conflicting block carries only the validator set (it is
+// decoded before anything else of the evidence is looked at)
+func c17OverflowEvidence(powers []int64, seed byte) *types.LightClientAttackEvidence {
+	vals := c17ValsOf(powers, seed)
+	return &types.LightClientAttackEvidence{
+		ConflictingBlock: &types.LightBlock{ValidatorSet: &types.ValidatorSet{Validators: vals, Proposer: vals[0]}},
+		CommonHeight:     1,
+	}
+}
+
+func c17PowersCoq(ps []int64) string { return vg.ZL(ps) }
+
+// a complete proposed block that carries the evidence, proposed and signed by the round's
+// legitimate proposer, sent part by part: the last part makes addProposalBlockPart decode it
+func (e *c17SM) evidenceBlockCase(r *vg.Rand, pw c17Powers) (c17SMCase, error) {
+	e.cs.mtx.Lock()
+	block, _ := e.cs.createProposalBlock()
+	e.cs.mtx.Unlock()
+	if block == nil {
+		return c17SMCase{}, fmt.Errorf("HARNESS: createProposalBlock returned nil")
+	}
+	block.Evidence = types.EvidenceData{Evidence: types.EvidenceList{c17OverflowEvidence(pw.powers, byte(r.Intn(200)))}}
+	block.EvidenceHash = block.Evidence.Hash()
+	for i := r.Intn(3); i > 0; i-- { // some payload so that the block has more than one part now and then
+		block.Data.Txs = append(block.Data.Txs, types.Tx(r.Bytes(30000)))
+	}
+	block.DataHash = nil
+	block.DataHash = block.Data.Hash()
+	parts := block.MakePartSet(types.BlockPartSizeBytes)
+	bid := types.BlockID{Hash: block.Hash(), PartSetHeader: parts.Header()}
+	prop := types.NewProposal(e.h, e.rd, -1, bid)
+	pp := prop.ToProto()
+	if err := e.privs[e.proposer].SignProposal(e.chainID, pp); err != nil {
+		return c17SMCase{}, err
+	}
+	var c c17SMCase
+	if r.Bool() {
+		c.pre = append(c.pre, c17MkNRS(e.h, e.rd, 1))
+	}
+	c.pre = append(c.pre, c17MkProposal(e.h, e.rd, -1, pp.BlockID, pp.Signature, fmt.Sprintf("signed by validator %d, the proposer of this round; the block carries LightClientAttackEvidence whose validator set has the voting powers %v", e.proposer, pw.powers)))
+	T := int(parts.Total())
+	for i := 0; i < T; i++ {
+		pb, err := parts.GetPart(i).ToProto()
+		if err != nil {
+			return c17SMCase{}, err
+		}
+		m := c17MkBlockPart(e.h, e.rd, uint32(i), pb.Bytes, pb.Proof, fmt.Sprintf("genuine part %d of %d of that block", i, T))
+		if i == T-1 {
+			c.focus, c.genuine = m, true
+		} else {
+			c.pre = append(c.pre, m)
+		}
+	}
+	c.kind = "f85:proposed-block-with-evidence:" + pw.name
+	return c, nil
+}
+
+// the decoders on their own (CValSet)
+func TestVerifC17WireValSets(t *testing.T) {
+	if !c17F85() {
+		return
+	}
+	cs := vg.NewCases("C17", "c17_wire_valsets", "TM.C17.Exec")
+	root := vg.NewRand(vg.Seed() ^ 0xF85)
+	// a decodable block to put evidence into
+	e, err := c17NewSM(3, root.Fork(999999))
+	if err != nil {
+		t.Fatal(err)
+	}
+	e.cs.mtx.Lock()
+	base, _ := e.cs.createProposalBlock()
+	e.cs.mtx.Unlock()
+	e.stop()
+	if base == nil {
+		t.Fatal("HARNESS: createProposalBlock returned nil")
+	}
+
+	run := func(id int, via int, pw c17Powers, withProposer bool, seed byte) {
+		vals := c17ValsOf(pw.powers, seed)
+		var ok, panicked bool
+		var total int64
+		var errText string
+		func() {
+			defer func() {
+				if r := recover(); r != nil {
+					panicked = true
+					errText = fmt.Sprintf("PANIC: %v", r)
+				}
+			}()
+			vsp := &tmproto.ValidatorSet{}
+			for _, v := range vals {
+				vp, err := v.ToProto()
+				if err != nil {
+					panic("HARNESS: " + err.Error())
+				}
+				vsp.Validators = append(vsp.Validators, vp)
+			}
+			if withProposer && len(vals) > 0 {
+				vsp.Proposer, _ = vals[0].ToProto()
+			}
+			switch via {
+			case 1:
+				bz, _ := vsp.Marshal()
+				var back tmproto.ValidatorSet
+				if err := back.Unmarshal(bz); err != nil {
+					errText = err.Error()
+					return
+				}
+				vs, err := types.ValidatorSetFromProto(&back)
+				if err != nil {
+					errText = err.Error()
+					return
+				}
+				ok, total = true, vs.TotalVotingPower()
+			case 2:
+				vs, err := types.ValidatorSetFromExistingValidators(vals)
+				if err != nil {
+					errText = err.Error()
+					return
+				}
+				ok, total = true, vs.TotalVotingPower()
+			default:
+				evp := tmproto.Evidence{Sum: &tmproto.Evidence_LightClientAttackEvidence{LightClientAttackEvidence: &tmproto.LightClientAttackEvidence{
+					ConflictingBlock: &tmproto.LightBlock{ValidatorSet: vsp}, CommonHeight: 1}}}
+				if via == 3 {
+					bz, _ := evp.Marshal()
+					var back tmproto.Evidence
+					if err := back.Unmarshal(bz); err != nil {
+						errText = err.Error()
+						return
+					}
+					if _, err := types.EvidenceFromProto(&back); err != nil {
+						errText = err.Error()
+						return
+					}
+					ok = true
+					return
+				}
+				bp, err := base.ToProto()
+				if err != nil {
+					panic("HARNESS: " + err.Error())
+				}
+				bp.Evidence = tmproto.EvidenceList{Evidence: []tmproto.Evidence{evp}}
+				bz, _ := bp.Marshal()
+				var back tmproto.Block
+				if err := back.Unmarshal(bz); err != nil {
+					errText = err.Error()
+					return
+				}
+				if _, err := types.BlockFromProto(&back); err != nil {
+					errText = err.Error()
+					return
+				}
+				ok = true
+			}
+		}()
+		prop := "None"
+		if withProposer && len(vals) > 0 && via != 2 {
+			prop = vg.Opt(true, vg.Z(pw.powers[0]))
+		}
+		term := vg.App("CValSet", vg.N(uint64(via)), c17PowersCoq(pw.powers), prop, vg.B(ok), vg.B(panicked), vg.Z(total))
+		viaName := []string{"", "types.ValidatorSetFromProto(bytes)", "types.ValidatorSetFromExistingValidators", "types.EvidenceFromProto(bytes of LightClientAttackEvidence{ConflictingBlock{ValidatorSet}})", "types.BlockFromProto(bytes of a proposal block carrying that evidence)"}[via]
+		descr := fmt.Sprintf("%s; validator set: ed25519 keys from seeds %d.., 20-byte addresses, voting powers %v, proposer = validator 0: %v | ok=%v total=%d | %s",
+			viaName, seed, pw.powers, withProposer, ok, total, errText)
+		cs.Add(id, fmt.Sprintf("f85:via%d:%s", via, pw.name), true, term, descr)
+	}
+
+	M := types.MaxTotalVotingPower
+	directed := []c17Powers{{"max-and-1", []int64{M, 1}}, {"max-1-and-1", []int64{M - 1, 1}}, {"one-maxint64", []int64{math.MaxInt64}},
+		{"negative", []int64{-5, 7}}, {"empty", nil}, {"zero", []int64{0}}, {"max+1-split-over-4", []int64{M / 4, M / 4, M / 4, M - 3*(M/4) + 1}}}
+	for via := 1; via <= 4; via++ {
+		for _, pw := range directed {
+			id := cs.NextID()
+			if cs.Want(id) {
+				run(id, via, pw, true, 11)
+			}
+		}
+	}
+	n := vg.Scale(80, 6000)
+	for k := 0; k < n; k++ {
+		id := cs.NextID()
+		if !cs.Want(id) {
+			continue
+		}
+		r := root.Fork(uint64(k))
+		run(id, 1+k%4, c17GenPowers(r), !r.Chance(10), byte(r.Intn(200)))
+	}
+	if err := cs.Write(); err != nil {
+		t.Fatal(err)
+	}
+}
+
+// the state machine: a complete proposed block carrying such evidence (CStateM, clause 22)
+func TestVerifC17StateMachineF85(t *testing.T) {
+	if !c17F85() {
+		return
+	}
+	cs := vg.NewCases("C17", "c17_statemachine_f85", "TM.C17.Exec")
+	root := vg.NewRand(vg.Seed() ^ 0xF85)
+	M := types.MaxTotalVotingPower
+	directed := []c17Powers{{"max-and-1", []int64{M, 1}}, {"one-maxint64", []int64{math.MaxInt64}}, {"negative", []int64{-5, 7}},
+		{"max-1-and-1", []int64{M - 1, 1}}}
+	n := vg.Scale(14, 800)
+	for k := 0; k < len(directed)+n; k++ {
+		id := cs.NextID()
+		if !cs.Want(id) {
+			continue
+		}
+		r := root.Fork(uint64(7000 + k))
+		e, err := c17NewSM(3, r)
+		if err != nil {
+			cs.Notes = append(cs.Notes, fmt.Sprintf("case %d: %v", id, err))
+			continue
+		}
+		pw := c17GenPowers(r)
+		if k < len(directed) {
+			pw = directed[k]
+		}
+		c, err := e.evidenceBlockCase(r, pw)
+		if err != nil {
+			cs.Notes = append(cs.Notes, fmt.Sprintf("case %d: %v", id, err))
+			e.stop()
+			continue
+		}
+		e.emit(cs, id, c.kind, c)
+		e.stop()
+	}
+	if err := cs.Write(); err != nil {
+		t.Fatal(err)
+	}
+}
+
+func ed25519FromSeed(seed []byte) crypto.PubKey { return ed25519.GenPrivKeyFromSecret(seed).PubKey() }
